@@ -5,5 +5,7 @@ CONSTANTS
   States = {"SUCCESSFUL", "FAILED", "INPROGRESS"}
   CacheSize = 2
   MaxSteps = 5
+  PollAllKeys = FALSE
+  GuardedStore = FALSE
 INVARIANT GreenNeverDowngraded
 CHECK_DEADLOCK FALSE
